@@ -217,3 +217,19 @@ Theorem double_range_error_witness :
   (let r := run inf_strtod sub_fmt empty_world (firstn 5 dbl_history) in skipn 4 (fst r) = [-1] /\ st_dbl (w_store (snd r)) 0 = 0).
 Proof. vm_compute. repeat split; reflexivity. Qed.
 
+
+(* ---- F-C17n: a string variable that holds NULL has no representation in the file ---- *)
+(* The option is declared with the default "d"; the application sets its variable to NULL (legal: NULL is also a legal default);
+   sc_options_save writes nothing for it (5918853), so the fresh identically declared object keeps "d".  The state is INSIDE the
+   executable guard: the round-trip theorem speaks about the items that are written (`active`), an unset string is not one. *)
+Definition nullstr_history : list op :=
+  [ ONew 0; OAdd 0 TString 115 (Some [115]) 0 0 0 (IStr (Some [100])); OAdd 0 TInt 105 (Some [105]) 1 0 0 (IInt 0);
+    ONew 4; OAdd 4 TString 115 (Some [115]) 32 0 0 (IStr (Some [100])); OAdd 4 TInt 105 (Some [105]) 33 0 0 (IInt 0);
+    OParse 0 [GShort 105 (Some [55]); GEnd] 3 [t_prog; t_f; [55]]; OSetVar 0 (VS None) ].
+
+Theorem null_string_roundtrip_refuted :
+  let w := snd (run toy_strtod toy_fmt empty_world nullstr_history) in
+  let r := run toy_strtod toy_fmt w [OSave 0 t_f; OLoad 4 t_f] in
+  roundtrip_ok_b toy_strtod toy_fmt w (get_opts w 0) = true /\ fst r = [0; 0] /\
+  st_str (w_store w) 0 = None /\ st_str (w_store (snd r)) 32 = Some [100] /\ st_int (w_store (snd r)) 33 = 7.
+Proof. vm_compute. repeat split; reflexivity. Qed.
